@@ -1350,7 +1350,7 @@ pub struct AddressAssignment {
 
 lazy_static! {
     static ref DIRECT_ADDRESS_UNASSIGNED: Regex = Regex::new(r"%([IQM])\*").unwrap();
-    static ref DIRECT_ADDRESS: Regex = Regex::new(r"%([IQM])([XBWDL])?(\d(\.\d)*)").unwrap();
+    static ref DIRECT_ADDRESS: Regex = Regex::new(r"%([IQM])([XBWDL])?(\d+(\.\d+)*)").unwrap();
 }
 
 impl TryFrom<&str> for AddressAssignment {
@@ -1369,11 +1369,14 @@ impl TryFrom<&str> for AddressAssignment {
 
         if let Some(cap) = DIRECT_ADDRESS.captures(value) {
             let location_prefix = LocationPrefix::try_from(&cap[1])?;
-            let size_prefix = SizePrefix::try_from(&cap[2])?;
-            let pos: Vec<u32> = cap[3]
+            // The size prefix is optional so the group might not be part of the match.
+            let size_prefix =
+                SizePrefix::try_from(cap.get(2).and_then(|m| m.as_str().chars().next()))?;
+            let pos = cap[3]
                 .split('.')
-                .map(|v| v.parse::<u32>().unwrap())
-                .collect();
+                .map(|v| v.parse::<u32>())
+                .collect::<Result<Vec<u32>, _>>()
+                .map_err(|e| "Address component is too large")?;
 
             return Ok(AddressAssignment {
                 location: location_prefix,
